@@ -512,6 +512,124 @@ fn run_relabelling(cx: &mut CaseCx, case: &Value) {
   cx.outcome("relabelling adversary fails");
 }
 
+/// An importer with a tag list OF ITS OWN (tags the sender never published), which goes on puncturing - its own
+/// tags first. Whatever the importer keeps or re-publishes for those tags, nothing in its exported state or in
+/// its public key may let the holder evaluate a punctured tag: (1) no 32-byte window is a seed or a leaf value
+/// on a punctured path, (2) algebraically - no window, read as a scalar ts, gives (k + ts)^-1 * P equal to the
+/// tag's evaluation of P (the formula is used only if it reproduces a real evaluation of a live tag).
+fn run_importer_own_tags(cx: &mut CaseCx, case: &Value) {
+  use curve25519_dalek::ristretto::CompressedRistretto;
+  use curve25519_dalek::scalar::Scalar;
+  let k = case["k"].as_u64().unwrap();
+  let (sender_tags, importer_tags, punct): (Vec<u8>, Vec<u8>, Vec<u8>) = match k {
+    0 => (vec![0, 1, 2], vec![0, 1, 2, 3, 4], vec![3, 4, 1]),
+    1 => (vec![5], (0..=7).collect(), vec![0, 7, 6, 5]),
+    2 => (vec![0, 1, 2, 3], vec![2, 3, 200, 255], vec![255, 200, 2, 0]),
+    3 => (vec![128, 129], vec![0, 128, 255], vec![0, 255, 128]),
+    4 => ((0..=255u8).collect(), vec![9], vec![9, 8]),
+    _ => (vec![7], vec![7, 135, 6], vec![135, 6, 7]),
+  };
+  let c = match setup_with(cx, 60 + k, sender_tags.clone()) {
+    Some(c) => c,
+    None => return,
+  };
+  let bytes = match export_bytes(&c.initial) {
+    Ok(b) => b,
+    Err(_) => return,
+  };
+  let mut importer = match pp::Server::new(importer_tags.clone()) {
+    Ok(s) => s,
+    Err(_) => return,
+  };
+  let d = |extra: Value| json!({"sender_tags": sender_tags.len(), "importer_tags": importer_tags, "punctured_on_importer": punct, "detail": extra});
+  if let Err(e) = import_into(&mut importer, &bytes) {
+    cx.viol("C11/import-failed", format!("import into an instance with its own tag list failed: {}", e), d(json!(null)));
+    return;
+  }
+  cx.nontrivial(0xc11_000 + k);
+  let (probe, _r) = pp::Client::blind(b"c11 importer probe");
+  let probe_pt = match CompressedRistretto(*probe.as_bytes()).decompress() {
+    Some(p) => p,
+    None => return,
+  };
+  let oprf_key = match parse_export(&bytes).and_then(|e| Option::<Scalar>::from(Scalar::from_canonical_bytes(e.oprf_key))) {
+    Some(k) => Some(k),
+    None => {
+      cx.count("algebraic_scan_unavailable", 1);
+      None
+    }
+  };
+  let formula = |kk: &Scalar, leaf: &[u8; 32]| ((kk + Scalar::from_bytes_mod_order(*leaf)).invert() * probe_pt).compress().to_bytes();
+  // positive control on a live tag of the sender
+  let control = sender_tags.iter().find(|t| !punct.contains(t)).or(sender_tags.first()).copied();
+  let formula_ok = match (oprf_key, control) {
+    (Some(kk), Some(t)) => match (c.baseline[t as usize], guard(|| c.initial.eval(&probe, t, false).map(|e| *e.output.as_bytes()).map_err(|e| e.to_string()))) {
+      (Some(leaf), Ok(Ok(real))) => formula(&kk, &leaf) == real,
+      _ => false,
+    },
+    _ => false,
+  };
+  cx.count(if formula_ok { "evaluation_formula_validated" } else { "algebraic_scan_unavailable" }, 1);
+  let mut done: Vec<u8> = vec![];
+  for &x in &punct {
+    cx.eval();
+    match guard(|| importer.puncture(x).is_ok()) {
+      Ok(true) => {}
+      Ok(false) => {
+        cx.count("importer_puncture_refused", 1);
+        continue;
+      }
+      Err(p) => {
+        cx.viol("C11/puncture-panicked", p, d(json!({"input": x})));
+        return;
+      }
+    }
+    done.push(x);
+    // the key material and everything the importer hands out
+    let covered = hook_nodes(importer.verif_pprf()).map(|n| n.0).unwrap_or_default().iter().any(|(n, _)| done.iter().any(|&y| n.covers(y)));
+    if covered {
+      cx.viol("C11/retained-node-on-punctured-path/own-tags", format!("an importer with its own tag list {:?} punctured {:?}: its key still retains a node on a punctured path", importer_tags, done), d(json!(null)));
+      return;
+    }
+    let mut blob = export_bytes(&importer).unwrap_or_default();
+    let mark = blob.len();
+    blob.extend(guard(|| importer.get_public_key().serialize_to_bincode().unwrap_or_default()).unwrap_or_default());
+    if let Some(seeds) = &c.seeds {
+      let forbidden: HashSet<[u8; 32]> = done.iter().flat_map(|&y| path_nodes(y)).filter_map(|n| seeds.get(&n).copied()).collect();
+      cx.eval();
+      if let Some(at) = blob.windows(32).position(|w| forbidden.contains(<&[u8; 32]>::try_from(w).unwrap())) {
+        cx.viol("C11/forbidden-seed-in-export/own-tags", format!("an importer created with its own tag list {:?} adopted the key of a sender that published {} tag(s) and punctured {:?}: the {} it hands out afterwards contains, at byte {}, a seed / leaf value on the path to a punctured input", importer_tags, sender_tags.len(), done, if at >= mark { "public key" } else { "exported key state" }, if at >= mark { at - mark } else { at }), d(json!({"offset": at})));
+        return;
+      }
+      cx.count("seed_scans", 1);
+    }
+    if let (true, Some(kk)) = (formula_ok, oprf_key) {
+      let wants: Vec<(u8, [u8; 32])> = done.iter().filter_map(|&y| c.baseline[y as usize].map(|leaf| (y, formula(&kk, &leaf)))).collect();
+      cx.eval();
+      for (at, w) in blob.windows(32).enumerate() {
+        let w: [u8; 32] = w.try_into().unwrap();
+        let cand = formula(&kk, &w);
+        if let Some((y, _)) = wants.iter().find(|(_, v)| *v == cand) {
+          cx.viol("C11/exported-value-evaluates-punctured-tag", format!("after the importer (own tag list {:?}) punctured {:?}, bytes {}.. of what it hands out, read as the tag scalar, evaluate the punctured tag {} to its original value", importer_tags, done, at, y), d(json!({"offset": at, "input": y})));
+          return;
+        }
+      }
+      cx.count("algebraic_scans", 1);
+    }
+    // ... and through the evaluation interface
+    for &y in &done {
+      if guard(|| importer.eval(&probe, y, false).is_ok()) == Ok(true) {
+        cx.viol("C11/importer-evaluates-punctured", format!("an importer with its own tag list still answers for tag {} after puncturing it", y), d(json!({"input": y})));
+        return;
+      }
+    }
+    cx.count("own_tag_punctures_checked", 1);
+  }
+  cx.count("states", done.len() as u64 + 1);
+  cx.count("transitions", done.len() as u64);
+  cx.outcome(format!("importer own tags case {}", k));
+}
+
 pub fn spec() -> PropSpec {
   PropSpec {
     id: "C11",
@@ -549,6 +667,13 @@ pub fn spec() -> PropSpec {
         gen: |_| (0..16u64).map(|i| json!({"lo": i * 16})).collect(),
         run: run_relabelling,
         min_counts: &[("relabelled_seeds_useless", 20_000), ("export_printer_validated", 16)],
+      },
+      Check {
+        name: "importer-own-tags",
+        rule: "6 (sender tag list, importer's OWN tag list, punctures on the importer) triples - the importer configured with tags the sender never published (superset, disjoint, sparse, single) - import, then puncture the importer's own tags first and a shared tag last; after every puncture: no retained node on a punctured path, no 32-byte window of the importer's exported state or public key is a seed / leaf value on a punctured path (Strobe replica of the tree, validated), no window read as tag scalar ts gives (k+ts)^-1 * P equal to the punctured tag's evaluation (formula validated against a real evaluation), Server::eval refuses",
+        gen: |_| (0..6u64).map(|k| json!({"k": k})).collect(),
+        run: run_importer_own_tags,
+        min_counts: &[("own_tag_punctures_checked", 15), ("algebraic_scans", 10), ("seed_scans", 10)],
       },
       Check {
         name: "singles-and-siblings",
